@@ -14,6 +14,12 @@ def adsb():
         return [(r[1], r[2].upper(), int(r[3])) for r in csv.reader(f) if len(r) >= 4]
 
 
+def adsb_timed():
+    """[(unix time, hex frame, icao, typecode)]"""
+    with open(os.path.join(_D, "sample_data_adsb.csv"), encoding="utf-8-sig") as f:
+        return [(float(r[0]), r[1], r[2].upper(), int(r[3])) for r in csv.reader(f) if len(r) >= 4]
+
+
 def commb(df):
     """[(hex frame, icao)] - 5000 DF20 or DF21 replies with the address known from the interrogation"""
     with open(os.path.join(_D, "sample_data_commb_df%d.csv" % df), encoding="utf-8-sig") as f:
